@@ -17,10 +17,13 @@ Definition fact_eqb (a b : fact) : bool := loc_eqb (fst a) (fst b) && (snd a =? 
 Definition memf (f : fact) (F : list fact) : bool := existsb (fact_eqb f) F.
 
 Section Check.
-Variables (physl special : list reg).
+Variables (physl special : list reg) (alias : reg -> reg -> bool).
 (* spilled or fresh register of this round: virtual, hence alias-free *)
 Definition sp (r : reg) : bool := memz r special && negb (isphys physl r).
 Definition keepf (r : reg) : bool := negb (memz r special).
+(* [dirty] = physical registers that inserted spill code has overwritten (e.g. an address scratch
+   register) and that have not been rewritten since: they need not agree *)
+Definition kclean (dirty : list reg) (r : reg) : bool := keepf r && negb (memz r dirty).
 
 Definition fact_ok (f : fact) : bool :=
   sp (snd f) && match fst f with LReg q => sp q | LSlot _ => true end.
@@ -42,14 +45,16 @@ Fixpoint pair_writes (F : list fact) (W' W : list reg) : option (list fact) :=
   | _, _ => None
   end.
 
-Fixpoint uses_ok (F : list fact) (us' us : list reg) : bool :=
+Fixpoint uses_ok (D : list reg) (F : list fact) (us' us : list reg) : bool :=
   match us', us with
   | [], [] => true
-  | u' :: a, u :: b => (((u' =? u) && keepf u) || memf (LReg u', u) F) && uses_ok F a b
+  | u' :: a, u :: b => (((u' =? u) && kclean D u) || memf (LReg u', u) F) && uses_ok D F a b
   | _, _ => false
   end.
 
-Variables (xp : list xinstr) (marks : list bool) (P : list instr) (facts : list (list fact)).
+Variables (xp : list xinstr) (marks : list bool) (P : list instr) (facts : list (list fact))
+          (dirty : list (list reg)).
+Definition dirty_at (pc : nat) : list reg := nth pc dirty [].
 
 Definition facts_at (pc : nat) : list fact := nth pc facts [].
 (* the facts claimed at point s all follow from [post] *)
@@ -58,6 +63,7 @@ Definition succ_ok (s : nat) (post : list fact) : bool :=
 
 Definition check_point (pc : nat) : bool :=
   let F := facts_at pc in
+  let D := dirty_at pc in
   match nth_error xp pc with
   | None => true
   | Some x =>
@@ -65,18 +71,21 @@ Definition check_point (pc : nat) : bool :=
       match x with
       | XI j =>
           match i_clob j, i_jumps j with
-          | [], [] => forallb sp (i_defs j)
+          | [], [] => forallb (fun d => sp d || (isphys physl d && keepf d)) (i_defs j)
+                      && subset (D ++ filter (fun r => memz r (i_defs j)
+                                                       || existsb (fun d => alias d r) (i_defs j)) physl)
+                                (dirty_at (S pc))
                       && succ_ok (S pc) (filter (fun f => match fst f with
                                                           | LReg q => negb (memz q (i_defs j))
                                                           | LSlot _ => true end) F)
           | _, _ => false
           end
       | XLoad d s =>
-          sp d && succ_ok (S pc)
+          sp d && subset D (dirty_at (S pc)) && succ_ok (S pc)
                     (map (fun f => (LReg d, snd f)) (filter (fun f => loc_eqb (fst f) (LSlot s)) F)
                      ++ filter (fun f => negb (loc_eqb (fst f) (LReg d))) F)
       | XStore s r =>
-          succ_ok (S pc)
+          subset D (dirty_at (S pc)) && succ_ok (S pc)
                   (map (fun f => (LSlot s, snd f)) (filter (fun f => loc_eqb (fst f) (LReg r)) F)
                    ++ filter (fun f => negb (loc_eqb (fst f) (LSlot s))) F)
       end
@@ -85,9 +94,11 @@ Definition check_point (pc : nat) : bool :=
       | XI i', Some i =>
           Bool.eqb (i_move i') (i_move i)
           && list_eqb Nat.eqb (map (cntb marks) (i_jumps i')) (i_jumps i)
-          && uses_ok F (i_uses i') (i_uses i)
+          && uses_ok D F (i_uses i') (i_uses i)
           && match pair_writes F (i_defs i' ++ i_clob i') (i_defs i ++ i_clob i) with
-             | Some post => forallb (fun s => succ_ok s post)
+             | Some post => forallb (fun s => succ_ok s post
+                                              && subset (filter (fun r => negb (memz r (i_defs i' ++ i_clob i'))) D)
+                                                        (dirty_at s))
                                     (match i_jumps i' with [] => [S pc] | js => js end)
              | None => false
              end
